@@ -99,6 +99,9 @@ func (s *SignatureData) RecoverDirect(message []byte, chainID int64) (a *ethtype
 	if s.R.BitLen() > 256 || s.S.BitLen() > 256 {
 		return nil, fmt.Errorf("invalid R or S value in signature (more than 256 bits)")
 	}
+	if s.R.Sign() < 0 || s.S.Sign() < 0 {
+		return nil, fmt.Errorf("invalid R or S value in signature (negative)")
+	}
 	s.R.FillBytes(signatureBytes[1:33])
 	s.S.FillBytes(signatureBytes[33:65])
 	pubKey, _, err := ecdsa.RecoverCompact(signatureBytes, message) // uses S256() by default
